@@ -10,6 +10,7 @@
 From Coq Require Import String ZArith Bool Arith List.
 From SV Require Import Names NamesFacts ListFacts Rep Fresh Complex Atomic RepInv Reach Homology Filtration Gen World Small Sweeps Shapes AddEffect Closed ClosedReach VInv AwbSpec VReach VSets.
 From SV Require Import TopOrder.
+From SV Require VIso2 BulkVinv SubdivVinv.
 
 Import ListNotations.
 
@@ -159,3 +160,26 @@ Theorem C01_maxOrder_is_the_largest_populated_order :
   ((0 <= maxOrder r)%Z -> exists s j, assoc s (r_simp r) = Some (Z.to_nat (maxOrder r), j)).
 Proof. exact maxOrder_is_largest_populated_order. Qed.
 Print Assumptions C01_maxOrder_is_the_largest_populated_order.
+
+(* compose: the composition of two complexes that meet the vertex-set reading meets it *)
+Theorem C01_compose_keeps_the_vertex_set_reading :
+  forall hp a c uid hp' d, vinv a -> vinv c -> Homology.compose hp a c None uid = (hp', d, Ok tt) -> vinv d.
+Proof. intros hp a c uid hp' d Va Vc H. exact (proj1 (VIso2.compose_vinv hp a c uid hp' d Va Vc H)). Qed.
+Print Assumptions C01_compose_keeps_the_vertex_set_reading.
+
+(* bulk addition (addSimplicesFrom without a renaming, copy(target)): when a complex that meets the vertex-set reading
+   is added to one that meets it and the call succeeds, the result meets it -- an accepted bulk add shares no name with
+   the receiver, hence no point, hence no vertex set *)
+Theorem C01_bulk_add_keeps_the_vertex_set_reading :
+  (forall hp r src hp' r' st ns', vinv r -> vinv src ->
+     addSimplicesFrom hp r (view_of src) RNone = (hp', r', st, Ok ns') -> vinv r') /\
+  (forall hp src target hp' r', vinv target -> vinv src ->
+     copy_into hp (view_of src) target = (hp', r', Ok tt) -> vinv r').
+Proof. split; [exact BulkVinv.addSimplicesFrom_vinv|exact BulkVinv.copy_into_vinv]. Qed.
+Print Assumptions C01_bulk_add_keeps_the_vertex_set_reading.
+
+(* barycentric subdivision: when it succeeds on a complex that meets the vertex-set reading, the result meets it *)
+Theorem C01_subdivide_keeps_the_vertex_set_reading :
+  forall r s pts r' mid, vinv r -> barycentricSubdivide r s pts = (r', Ok mid) -> vinv r'.
+Proof. exact SubdivVinv.barycentricSubdivide_vinv. Qed.
+Print Assumptions C01_subdivide_keeps_the_vertex_set_reading.
